@@ -16,7 +16,7 @@ def parse_obs(o):
     assert i == len(o), (i, len(o), o)
     return d
 
-LNAMES = {0: 'Start', 1: 'Step', 2: 'Env', 3: 'Cancel', 4: 'Mark', 5: 'Fire'}
+LNAMES = {0: 'Start', 1: 'Step', 2: 'Env', 3: 'Cancel', 4: 'Mark', 5: 'Fire', 6: 'Tick'}
 OPS = {0: 'Get', 1: 'Drop', 2: 'Take', 3: 'Resize', 4: 'Retain', 5: 'Close', 6: 'Status', 7: 'DropPool'}
 EVN = {1: 'CreateCall', 2: 'RecycleCall', 3: 'HookCall', 4: 'Detach', 5: 'Destroy', 6: 'HandOut',
        7: 'RetainSee', 8: 'RetainResult', 9: 'Removed', 10: 'Status', 11: 'Created', 12: 'ANOMALY'}
